@@ -222,9 +222,10 @@ func actionCodeReplace(vnode *parser.RootVistor,
 	for _, rightPart := range oneRule.RighPart {
 		rightPartString += parser.RemoveTempName(rightPart.Name) + " "
 	}
+	// the action text is shown inside a comment: it must not be able to end that comment
 	strComment = fmt.Sprintf(strComment,
-		fmt.Sprintf("%s -> %s\n %s\n",
-			leftPartString, rightPartString, oneRule.ActionCode))
+		strings.ReplaceAll(fmt.Sprintf("%s -> %s\n %s\n",
+			leftPartString, rightPartString, oneRule.ActionCode), "*/", "* /"))
 
 	str := oneRule.ActionCode
 	str = strings.ReplaceAll(str, "$$",
